@@ -19,7 +19,7 @@ func allPropsUnsorted() []*propInfo {
 				"C01.2 each prune job deletes exactly `id IN result` of a select whose atoms are exactly its justification (completed/expired/deleted-subscription older than the threshold); ack addresses exactly the requested ids; " +
 				"C01.3 publish fans out over exactly the live subscriptions, the loop reaches deliverToSubscription for every element and has no early exit, every created builder is saved through CreateBulk on the transaction, and a delivery is skipped only for filtered subscriptions; " +
 				"C01.4 the pull selection has exactly {completed_at IS NULL, expires_at > now, subscription_id = verified sub, attempt_at <= now} (+ the ordering gate only for ordered subscriptions); " +
-				"C01.5 attempts / not_before_id have a single writer. " +
+				"C01.5 attempts / not_before_id have a single writer; C02.2 (shared) every update/delete of delivery rows is addressed by delivery id or scoped to the subscription resolved in the same operation. " +
 				"NOT decided: clock arithmetic (that attempt_at/expires_at values make a message due again), database semantics, the history-level claim itself.",
 			Assumptions: []string{k1Assumption, "database executes the statements as ent renders them"},
 			Rules: []ruleFn{
@@ -28,6 +28,7 @@ func allPropsUnsorted() []*propInfo {
 				{ID: "C01.3", Doc: "[dom] publish fan-out reaches every live subscription", Run: ruleC01_3},
 				{ID: "C01.4", Doc: "[atoms] pull eligibility is exact", Run: ruleC01_4},
 				{ID: "C01.5", Doc: "[who] lease bookkeeping columns have one writer", Run: ruleC01_5},
+				{ID: "C02.2", Doc: "[atoms] (shared) no delivery mutation reaches another subscription's rows: other subscriptions' acks/seeks cannot make a message disappear", Run: ruleC02_2},
 			},
 		},
 		{
